@@ -1,5 +1,6 @@
 import HcipyVerif.Model.Proto
 import HcipyVerif.Model.Fraunhofer
+import HcipyVerif.Model.FraunhoferPipe
 
 /-! Line-protocol front end of the C03 model (Fraunhofer bookkeeping).
 
@@ -14,6 +15,10 @@ C03 mkfocal [qx,qy] [ax,ay] [srx,sry]           -> ok delta=[…] dims=[…] zer
 C03 ffpg q numairy|- lf                        -> ok delta=[…] dims=[…] zero=[…] slack=[…]   (make_focal_grid_from_pupil_grid)
 C03 impulse-idx [jx,jy] [kx,ky]                -> ok amp=… turns=…   (pupil index, focal index of the last `focal`)
 C03 impulse-at [jx,jy] [x,y]                   -> ok amp=… turns=…   (pupil index, arbitrary focal point)
+C03 lens fwd|bwd cheaper emu [jx,jy] [kx,ky]   -> ok method=fft|mft val=c:t   the modelled *pipeline* (selection by
+                                                  `choose detectFix`, then `fastForward2`/`mftForward` (or backward),
+                                                  then the norm factor) on a unit impulse; value c·exp(2πi·t)
+C03 lens-sep cheaper [jx,jy] [kx,ky] [X…] [Y…] -> same, forward, separated non-regular focal grid
 ```
 -/
 namespace HcipyVerif.Driver.C03
@@ -23,6 +28,24 @@ structure St where
   session : Option Session := none
   setup : Option Setup := none
   focal : Option RegGrid := none
+
+def showVal (p : HcipyVerif.Fft.PSum) : String :=
+  match p.terms with
+  | [] => "0:0"
+  | [x] => if x.r = 0 then s!"{showRat x.c}:{showRat x.t}" else "radians"
+  | _ => "multi"
+
+def showMethod : HcipyVerif.Fft.Method → String
+  | .fft => "fft" | .mft => "mft" | .naive => "naive"
+
+def pair? : List Nat → Option (Nat × Nat)
+  | [a, b] => some (a, b)
+  | _ => none
+
+def parseFlag? : String → Option Bool
+  | "0" => some false
+  | "1" => some true
+  | _ => none
 
 def okLen (n : Nat) (a : List Rat) (b : List Nat) (c : List Rat) : Bool :=
   a.length == n && b.length == n && c.length == n && n > 0
@@ -117,6 +140,28 @@ def step (st : St) : List String → St × String
       (st, showImpulse (impulseResponse s s.pupil.weight x (s.pupil.point j)))
     | none, some _, some _ => (st, "err value")
     | _, _, _ => (st, "bad-op")
+  | ["lens", dir, cheaper, emu, j, k] =>
+    match (if dir == "fwd" then some Dir.fwd else if dir == "bwd" then some Dir.bwd else none),
+      parseFlag? cheaper, parseFlag? emu, (parseNatList? j).bind pair?, (parseNatList? k).bind pair? with
+    | some dir, some cheaper, some emu, some j, some k =>
+      match st.setup, st.focal with
+      | some s, some g =>
+        match lensImpulse s g dir cheaper emu j k with
+        | some (m, v) => (st, s!"ok method={showMethod m} val={showVal v}")
+        | none => (st, "err value")
+      | _, _ => (st, "err value")
+    | _, _, _, _, _ => (st, "bad-op")
+  | ["lens-sep", cheaper, j, k, xs, ys] =>
+    match parseFlag? cheaper, (parseNatList? j).bind pair?, (parseNatList? k).bind pair?, parseRatList? xs, parseRatList? ys with
+    | some cheaper, some j, some k, some xs, some ys =>
+      match st.setup with
+      | some s =>
+        if k.1 ≥ xs.length || k.2 ≥ ys.length then (st, "err value") else
+        match lensImpulseSep s xs ys cheaper j k with
+        | some (m, v) => (st, s!"ok method={showMethod m} val={showVal v}")
+        | none => (st, "err value")
+      | none => (st, "err value")
+    | _, _, _, _, _ => (st, "bad-op")
   | _ => (st, "bad-op")
 
 end HcipyVerif.Driver.C03
